@@ -47,6 +47,7 @@ func (v *Vue) evaluate(ctx VueContext, nodes []*html.Node, depth int) ([]*html.N
 				vSeenID := helpers.GetAttr(node, "v-once-id")
 				if ctx.seen[vSeenID] {
 					// This v-once element has already been rendered, skip it
+					ctx.noteOnceSkip()
 					continue
 				}
 				// Mark this v-once element as rendered
